@@ -9,6 +9,7 @@ from typing import List, Tuple
 from pyopenapi_gen import IRSchema
 from pyopenapi_gen.context.render_context import RenderContext
 from pyopenapi_gen.core.utils import NameSanitizer
+from pyopenapi_gen.core.writers.code_writer import python_string_literal
 from pyopenapi_gen.core.writers.python_construct_renderer import PythonConstructRenderer
 from pyopenapi_gen.helpers.type_resolution.finalizer import TypeFinalizer
 from pyopenapi_gen.types.services.type_service import UnifiedTypeService
@@ -376,8 +377,7 @@ converter.register_unstructure_hook({class_name}, _unstructure_{class_name.lower
                     return f"{ps.name}.{enum_member_name}"
 
             if isinstance(ps.default, str):
-                escaped_inner_content = json.dumps(ps.default)[1:-1]
-                return '"' + escaped_inner_content + '"'
+                return python_string_literal(ps.default)
             elif isinstance(ps.default, bool):
                 return str(ps.default)
             elif isinstance(ps.default, (int, float)):
